@@ -5,6 +5,9 @@ set_option linter.unusedSimpArgs false
 set_option linter.unusedVariables false
 namespace Pox.Conn
 
+variable {v : Bool}
+local notation "R" => Cfg.rv v
+
 /-- provenance of the handshake state of one connection: its barrier xid is the one sent in answer to the most recent
 features reply, its datapath id is that reply's, and its deferred list is exactly the port-status received since -/
 def ProvC (k : Conn) (tr : Trace) (c : Nat) : Prop :=
@@ -92,7 +95,12 @@ theorem prov_step (s : St) (tr : Trace) (op : Op) (hs : SInv s) (hp : Prov s tr)
     intro c _ _ hu h _ c'; subst h
     exact provC_keep _ _ _ _ _ _ (by simp [isFeat]) (by simp [isPs]) (hp c') (by fin)
   case upFeatures =>
-    intro c d _ _ hu h c'; subst h
+    intro c d _ _ hu h _ c'; subst h
+    by_cases hcc : c' = c
+    · subst hcc; intro hu'; simp [hu] at hu'
+    · exact provC_keep _ _ _ _ _ _ (isFeat_ne _ _ _ hcc) (isPs_ne _ _ _ hcc) (hp c') (by fin)
+  case upFeaturesMove =>
+    intro c d _ _ hu h _ _ c'; subst h
     by_cases hcc : c' = c
     · subst hcc; intro hu'; simp [hu] at hu'
     · exact provC_keep _ _ _ _ _ _ (isFeat_ne _ _ _ hcc) (isPs_ne _ _ _ hcc) (hp c') (by fin)
@@ -216,7 +224,8 @@ theorem regIn_cons_reg (dp : Option Nat) (c : Nat) (rest : List Out) (k : Option
 structure RInv (s : St) (tr : Trace) : Prop where
   sound : ∀ k c, s.reg k = some c →
     c < s.n ∧ (s.conns c).dpid = k ∧ (s.conns c).up = true ∧ (s.conns c).disc = false
-  exact : ∀ k, s.reg k = (lastReg tr k).bind fun c => if (s.conns c).disc = true then none else some c
+  exact : ∀ k, s.reg k = (lastReg tr k).bind fun c =>
+    if (s.conns c).disc = true ∨ (s.conns c).dpid ≠ k then none else some c
   regUp : ∀ k c, lastReg tr k = some c → (s.conns c).up = true
   hist : ∀ c d, (s.conns c).dpid = some d → ∃ o, (Op.msg c (.featuresReply d), o) ∈ tr
 
@@ -273,24 +282,31 @@ theorem rinv_disc_shape (s s' : St) (tr : Trace) (op : Op) (o : List Out) (c : N
         rw [a2]; exact h
       · exact a4
   · intro k
-    rw [hreg, hl, h2 k]
+    rw [hreg, hl]
+    have h2k := h2 k
     cases hlr : lastReg tr k with
-    | none => simp
+    | none =>
+      rw [hlr] at h2k; simp only [Option.bind_none] at h2k ⊢
+      split
+      · rfl
+      · exact h2k
     | some c1 =>
+      rw [hlr] at h2k
       have hup := h3 k c1 hlr
       obtain ⟨b1, b2, b3⟩ := hc c1
-      simp only [Option.bind_some, b3]
+      simp only [Option.bind_some, b2, b3] at h2k ⊢
       by_cases hcc : c1 = c
       · subst hcc
-        simp only [if_true]
+        simp only [if_true, true_or]
         split
         · rfl
         · rename_i hne
+          rw [h2k]
           split
           · rfl
-          · rename_i hdisc
+          · rename_i hlive
             exfalso; apply hne
-            have hreg1 : s.reg k = some c1 := by rw [h2 k, hlr]; simp [hdisc]
+            have hreg1 : s.reg k = some c1 := by rw [h2k]; simp [hlive]
             obtain ⟨a1, a2, a3, a4⟩ := h1 k c1 hreg1
             exact ⟨hdn (hud a3), by rw [a2]; exact hreg1, a2.symm⟩
       · simp only [hcc, if_false]
@@ -298,12 +314,11 @@ theorem rinv_disc_shape (s s' : St) (tr : Trace) (op : Op) (o : List Out) (c : N
         · rename_i he
           obtain ⟨e1, e2, e3⟩ := he
           have : s.reg k = some c := by rw [e3]; exact e2
-          rw [h2 k, hlr] at this
-          simp only [Option.bind_some] at this
+          rw [h2k] at this
           split at this
           · cases this
           · injection this with this; exact absurd this hcc
-        · rfl
+        · exact h2k
   · intro k c1 h; rw [hl] at h; rw [(hc c1).1]; exact h3 k c1 h
   · intro c1 d h
     rw [(hc c1).2.1] at h
@@ -335,20 +350,28 @@ theorem rinv_reg_shape (s s' : St) (tr : Trace) (op : Op) (o : List Out) (c : Na
   · intro k
     rw [hreg, lastReg_cons, hout]
     by_cases hk : k = dp
-    · subst hk; simp [hcc.2.2]
+    · subst hk; simp [hcc.2.2, hcc.2.1]
     · have hk' : ¬ dp = k := fun e => hk e.symm
       simp only [hk, hk', if_false, Option.none_or]
-      rw [h2 k]
+      have h2k := h2 k
       cases hlr : lastReg tr k with
-      | none => rfl
+      | none => rw [hlr] at h2k; exact h2k
       | some c1 =>
-        simp only [Option.bind_some]
+        rw [hlr] at h2k
+        simp only [Option.bind_some] at h2k ⊢
         by_cases hne : c1 = c
         · subst hne
-          exfalso
-          have : s.reg k = some c1 := by rw [h2 k, hlr]; simp [hd]
-          exact hk (hold k this)
-        · rw [(hc c1 hne).2.2]
+          have hnone : s.reg k = none := by
+            cases hr : s.reg k with
+            | none => rfl
+            | some c2 =>
+              rw [hr] at h2k
+              split at h2k
+              · cases h2k
+              · injection h2k with h2k; subst h2k; exact absurd (hold k hr) hk
+          rw [hnone, hcc.2.1]; simp [hk']
+        · obtain ⟨b1, b2, b3⟩ := hc c1 hne
+          rw [b2, b3]; exact h2k
   · intro k c1 h
     rw [lastReg_cons, hout] at h
     by_cases hk : dp = k
